@@ -3,7 +3,7 @@
     Only statements here; proofs live in Proofs/Ratchet.v.  [chain]/[km] are arbitrary functions
     (HKDF is not assumed to have any property); [sec chain s0 n] is the free term [chain^n s0]. *)
 From Coq Require Import List NArith.
-From PV Require Import Lib.NList Model.Ratchet Proofs.Ratchet Oracle.C34.
+From PV Require Import Lib.NList Model.Ratchet Proofs.Ratchet Oracle.C34 Proofs.OracleC34.
 Import ListNotations.
 Local Open Scope N_scope.
 
@@ -72,3 +72,15 @@ Theorem C34_index_in_bounds :
            (snd (run S K chain km (ds_at 0 s0) (fixed fwd ooo gs))).
 Proof. exact index_in_bounds. Qed.
 Print Assumptions C34_index_in_bounds.
+
+(** The boolean oracle run on the implementation's answers is sound for a fixed configuration
+    inside the guards: accepted observations are class by class what the specification
+    prescribes, and every key carries the requested generation. *)
+Theorem C34_oracle_sound :
+  forall b rqs os st,
+    forallb guard rqs = true ->
+    check_all true b st rqs os = true ->
+    map obs_cls os = snd (spec_run b st rqs) /\
+    Forall2 (fun rq o => forall i, o = OK i -> i = rq_g rq) rqs os.
+Proof. exact check_strict_sound. Qed.
+Print Assumptions C34_oracle_sound.
